@@ -35,10 +35,20 @@ enum MaybeEncrypted<W> {
 }
 impl<W: Write> Write for MaybeEncrypted<W> {
     fn write(&mut self, buf: &[u8]) -> io::Result<usize> {
-        match self {
-            MaybeEncrypted::Unencrypted(w) => w.write(buf),
-            MaybeEncrypted::Encrypted(w) => w.write(buf),
+        let count = match self {
+            MaybeEncrypted::Unencrypted(w) => w.write(buf)?,
+            MaybeEncrypted::Encrypted(w) => w.write(buf)?,
+        };
+        // A sink that takes none of the bytes offered (a full `Cursor<&mut [u8]>`, for one) has
+        // failed. The compressors sit on top of this writer, and the Bzip2 one offers its output
+        // again and again for as long as it is answered `Ok(0)`.
+        if count == 0 && !buf.is_empty() {
+            return Err(io::Error::new(
+                io::ErrorKind::WriteZero,
+                "failed to write the entry's data: the underlying writer accepts no more bytes",
+            ));
         }
+        Ok(count)
     }
     fn flush(&mut self) -> io::Result<()> {
         match self {
